@@ -109,7 +109,7 @@ def first_error_theorems(out):
 def prove(cfg, tier, work):
     """returns dict(ok, obligations=[{name, ok, axioms}], errors=[...], driver_ok)"""
     res = {'ok': True, 'obligations': [], 'errors': [], 'driver_ok': True}
-    with Lock('lake'):
+    if True:  # caller holds Lock('lake') across translate + prove (Gen files are shared between runs)
         targets = list(cfg['props_modules'])
         rc, out = lake(['build'] + targets)
         if rc != 0:
@@ -341,14 +341,13 @@ def run_check(prop, tier, seed, replay=None):
         path = write_replay(prop, seed, nrep[0], payload)
         violations.append((path, suffix))
 
-    # 1. translate
+    # 1. translate + 2. prove under ONE lock: Gen/<Sub>.lean is shared, so another run (possibly with a
+    # different VERIF_REPO) must not regenerate it between this run's translate and build
     with Lock('lake'):
         trep = translate.run(cfg['subs'])
+        pres = prove(cfg, tier, work)
     gen_items = [r for sub in cfg['subs'] for r in trep.get(sub, [])]
     gen_bad = [r for r in gen_items if not r['ok']]
-
-    # 2. prove
-    pres = prove(cfg, tier, work)
     obligations = [{'name': 'extraction of ' + r['item'], 'kind': 'translator', 'ok': r['ok']} for r in gen_items]
     obligations += pres['obligations']
     proof_ok = pres['ok'] and not gen_bad
